@@ -201,7 +201,7 @@ def stmt(self, s: ast.stmt, st: State) -> Optional[State]:
 
 def _weaken(o: HObj):
     if o.kind == "dict" and o.exact:
-        o.writes = [(C(k), v, o.created_ctx) for k, v in o.kv.items()]
+        o.writes = [(k.term if hasattr(k, 'term') else C(k), v, o.created_ctx) for k, v in o.kv.items()]
         o.sure = set(o.kv.keys())
         o.kv = {}
         o.exact = False
@@ -306,6 +306,12 @@ def store_subscript(self, base: Term, idx: Term, v: Term, st: State, node):
                 pass
         if o.exact and idx.op == "tuple" and all(is_const(x) for x in idx.args[0]):
             o.kv[tuple(cval(x) for x in idx.args[0])] = v
+            o.version += 1
+            return
+        if o.exact and self.sym_bytes and not is_const(idx) and idx.op not in ("phi", "ref"):
+            from .heap import TK
+
+            o.kv[TK(idx)] = v
             o.version += 1
             return
         _weaken(o)
